@@ -101,8 +101,15 @@ def line_directive(n, file=None, flags=(), keyword=True, indent="", field_sep=" 
     return d
 
 
-def pragma_directive(text=None, indent="", hash_gap=""):
-    """`#pragma text` / bare `#pragma` (hash_gap: blanks between # and pragma)."""
+def pragma_directive(text=None, indent="", hash_gap="", text_gap=" ", trailing=""):
+    """`#pragma text` / bare `#pragma`.
+
+    hash_gap: blanks between '#' and `pragma`; text_gap: blanks between
+    `pragma` and the text; trailing: blanks after the text (or, without text,
+    after the word).  pycparser's documented PPPRAGMASTR value is everything
+    from the first non-blank after `pragma` up to the newline, trailing blanks
+    INCLUDED (so `text` itself may also end in blanks); a line with nothing but
+    blanks after `pragma` has no PPPRAGMASTR."""
     d = Directive()
     d.kind = "pragma"
     d.indent = indent
@@ -111,31 +118,43 @@ def pragma_directive(text=None, indent="", hash_gap=""):
     d.text = head + "pragma"
     d.str = None
     d.str_col = None
+    for b in (hash_gap, text_gap, trailing):
+        if b.strip(" \t"):
+            raise ValueError("gaps must be blanks")
     if text:
-        if text != text.strip(" \t") or "\n" in text:
-            raise ValueError("pragma text must not start/end with blanks")
-        d.str_col = len(d.text) + 1
-        d.text += " " + text
-        d.str = text
+        if text[0] in " \t" or "\n" in text:
+            raise ValueError("pragma text must not start with a blank or contain a newline")
+        if not text_gap and (text[0] in lexref.IDCHAR):
+            raise ValueError("pragma text must be separated from the word")
+        d.str_col = len(d.text) + len(text_gap)
+        d.str = text + trailing
+        d.text += text_gap + d.str
+    else:
+        d.text += trailing
     d.line = d.file = None
     return d
 
 
-_PRAGMA_TOKEN = re.compile(r"^([ \t]*)#([ \t]*)pragma(?![0-9A-Za-z_$])[ \t]*(.*?)[ \t]*\n?$")
+_PRAGMA_TOKEN = re.compile(r"^([ \t]*)#([ \t]*)pragma(?![0-9A-Za-z_$])([ \t]*)([^\n]*)\n?$")
 
 
 def is_pragma_token(spelling):
     """A token spelling that is a pragma line: `#pragma x`, `# pragma x`,
-    `  #\tpragma`, optionally with a trailing newline."""
+    `  #\tpragma`, `#pragma x \t`, optionally with a trailing newline."""
     return _PRAGMA_TOKEN.match(spelling) is not None
 
 
 def parse_pragma_token(spelling):
-    """'#pragma x\n' / '  # pragma' -> Directive (indent and hash gap kept)."""
+    """'#pragma x\n' / '  # pragma' / '#pragma x  ' -> Directive (indent, hash
+    gap, text gap and trailing blanks kept: `"#pragma " + value + "\n"` gives
+    back a PPPRAGMASTR with exactly that value)."""
     m = _PRAGMA_TOKEN.match(spelling)
     if m is None:
         raise ValueError(spelling)
-    return pragma_directive(m.group(3) or None, indent=m.group(1), hash_gap=m.group(2))
+    if m.group(4):
+        return pragma_directive(m.group(4), indent=m.group(1), hash_gap=m.group(2),
+                                text_gap=m.group(3))
+    return pragma_directive(None, indent=m.group(1), hash_gap=m.group(2), trailing=m.group(3))
 
 
 class TokPos:
